@@ -102,9 +102,10 @@ def run(ctx, report):
     # make sure order-sensitive triples are in
     trials.append([{"AA": {"x": 1}}, {"AA": {"x": 2}}, {"AA": {"x": 3}}])
     trials.append([{"AA": 1}, {"AA": {"x": 2}}, {"BB": 1}])
-    names = ["generated.json", "overwrite.json", "zz_local.json"]
     first_bad = None
-    for docs3 in trials:
+    for ti, docs3 in enumerate(trials):
+        # the second name set orders differently by file name and by stem ('-' sorts before '.'): only the file name counts
+        names = ["generated.json", "overwrite.json", "zz_local.json"] if ti % 2 == 0 else ["overwrite-local.json", "overwrite.json", "zz.json"]
         for order_name, order in (("reverse", lambda xs: sorted(xs, reverse=True)), ("rotated", lambda xs: sorted(xs)[1:] + sorted(xs)[:1])):
             itg = fresh_interp(ctx)
             itg.vfs = {("path", "schwifty", "iban_registry"): list(zip(names, copy.deepcopy(docs3))) + [("README.md", None)]}
@@ -115,9 +116,9 @@ def run(ctx, report):
                 want = copy.deepcopy(d) if want is None else deep_merge(want, d)
             r_g.instance({"files": names, "docs": docs3} if len(r_g.samples) < 2 else None)
             if (o.kind != "return" or o.value != want) and first_bad is None:
-                first_bad = (docs3, order_name, o.value if o.kind == "return" else f"raises {o.value.name} at {o.value.where}", want)
+                first_bad = (docs3, order_name, o.value if o.kind == "return" else f"raises {o.value.name} at {o.value.where}", want, names)
     if first_bad:
-        r_g.finding("get:dict", f"get('iban') over files {names} with contents {first_bad[0]!r} (directory listing order: {first_bad[1]}) gives {first_bad[2]!r}; "
+        r_g.finding("get:dict", f"get('iban') over files {first_bad[4]} with contents {first_bad[0]!r} (directory listing order: {first_bad[1]}) gives {first_bad[2]!r}; "
                     f"name-order deep merge gives {first_bad[3]!r}", gf.where, witness={"docs": first_bad[0], "listing": first_bad[1]})
     # cached second call returns the same object
     itg = fresh_interp(ctx)
